@@ -92,7 +92,16 @@ def check(run):
             if got != exp:
                 run.violation({"property": run.pid, "kind": "impl-vs-spec", "stream": "recover-real", "ops": [f"rln recover {hx(M['msg'])} {hx(m2)}"],
                                "detail": f"recovered {got[:80]} expected {exp[:80]}"})
+    # ---- through the C interface the way a C caller does it: two messages are produced, BOTH output buffers are kept (not copied),
+    #      then handed to recover_id_secret — an output buffer belongs to the caller and must still hold its message after later calls
+    for M in msgs[:1]:
+        if M["msg"] is None:
+            continue
+        req1 = rlngen.prove_request(M["member"].secret, M["member"].index, M["member"].limit, M["mid"], M["ext"], b"first signal")
+        req2 = rlngen.prove_request(M["member"].secret, M["member"].index, M["member"].limit, M["mid"], M["ext"], b"second signal")
+        setup = ["lock new"] + [l.replace("rln set_leaf", "lock set_leaf") for l in M["setup"][1:]]
+        seqs.append(setup + [f"lock prove_req {hx(req1)}", f"lock prove_req {hx(req2)}", "lock root", f"lock get_leaf {hex(M['member'].index)}", "lock root"])
     run.rules.append("interpolation on boundary/random shares incl. x1 = x2 with equal and different y; pairs of message encodings built from proof_values_from_witness for the same and for different (external nullifier, message id), boundary x, identical messages, both argument orders, messages with their signal attached (one / the other / both); a few pairs of really proved messages; distinct = distinct op line")
     from lib import gen as _gen
     seqs = seqs + _gen.neighbours(seqs, run.rng, 30 if run.tier == "quick" else 300)      # purity across calls: L, near-duplicate of L, L again
-    run.differential("recover", seqs, shrink=False)
+    run.differential("recover", seqs, shrink=False, canon=lambda l, x: x[5:] if x.startswith("same ") else x)     # lockstep lines answer `same <result>`
